@@ -13,7 +13,7 @@ import (
 	"verif/harness/internal/gen"
 	"verif/harness/internal/rec"
 	"verif/harness/internal/stack"
-	"verif/harness/internal/vt"
+	"verif/harness/vt"
 )
 
 // RelayScript is one client call whose arrival at the backend is inspected.
